@@ -581,7 +581,12 @@ impl RobotBody {
 
     fn check_required(&self, i: usize, j: usize, skip: &HashSet<usize>,
                       safety_distances: &SafetyDistances) -> bool {
-        !skip.contains(&i) && !skip.contains(&j) &&
+        // A pair needs no check only when neither of its bodies moved: the joints listed in
+        // `skip`, the base and the environment objects stay where they were.
+        let unmoved = |body: usize| {
+            skip.contains(&body) || body == J_BASE || body >= ENV_START_IDX
+        };
+        !(unmoved(i) && unmoved(j)) &&
             safety_distances.min_distance(i as u16, j as u16) > &NEVER_COLLIDES
     }    
 }
